@@ -48,6 +48,20 @@ class EndpointResponseHandlerGenerator:
     def __init__(self, schemas: dict[str, Any] | None = None) -> None:
         self.schemas: dict[str, Any] = schemas or {}
 
+    @staticmethod
+    def _write_secondary_success_return(writer: CodeWriter, strategy: ResponseStrategy, value_expr: str | None) -> None:
+        """Write the return of a success response other than the primary one.
+
+        A streaming operation is an async generator, where `return <value>` is a SyntaxError: a
+        non-streamed success answer yields its body (if it has one) as the only item and ends the stream.
+        """
+        if strategy.is_streaming:
+            if value_expr is not None:
+                writer.write_line(f"yield {value_expr}")
+            writer.write_line("return  # Explicit return for async generator")
+        else:
+            writer.write_line(f"return {value_expr if value_expr is not None else 'None'}")
+
     def _register_cattrs_import(self, context: RenderContext) -> None:
         """Register the cattrs structure_from_dict import."""
         context.add_import(f"{context.core_package_name}.cattrs_converter", "structure_from_dict")
@@ -464,7 +478,7 @@ class EndpointResponseHandlerGenerator:
                 if resp_ir.status_code.startswith("2"):
                     # Other 2xx success responses - resolve each response individually
                     if not resp_ir.content:
-                        writer.write_line("return None")
+                        self._write_secondary_success_return(writer, strategy, None)
                     else:
                         # Resolve the specific return type for this response
                         resp_schema = self._get_response_schema(resp_ir)
@@ -477,13 +491,15 @@ class EndpointResponseHandlerGenerator:
                             if self._should_use_cattrs_structure(response_type):
                                 self._register_cattrs_import(context)
                                 deserialization_code = self._get_cattrs_deserialization_code(response_type, data_expr)
-                                writer.write_line(f"return {deserialization_code}")
+                                self._write_secondary_success_return(writer, strategy, deserialization_code)
                                 self._register_imports_for_type(response_type, context)
                             else:
                                 context.add_import("typing", "cast")
-                                writer.write_line(f"return cast({response_type}, {data_expr})")
+                                self._write_secondary_success_return(
+                                    writer, strategy, f"cast({response_type}, {data_expr})"
+                                )
                         else:
-                            writer.write_line("return None")
+                            self._write_secondary_success_return(writer, strategy, None)
                 elif is_error_code(status_code_val):
                     # Error responses - use human-readable exception names
                     error_class_name = get_exception_class_name(status_code_val)
